@@ -120,3 +120,11 @@ package common
 //@   callpre RecoverPublicKey: sig == caller_sig.Signature && hash == caller_hash
 //@   ensures [nosig] sig.Signature == nil ==> err != nil && pk == nil
 //@   ensures [recovered] err == nil ==> sig.Signature != nil && sig_ok(ref(sig.Signature), seq(hash)) && pk != nil && pk_bytes(ref(pk)) == sig_pk(ref(sig.Signature), seq(hash))
+
+// C08 / C26: decompression of header fields (trusted; decomp_res: the last result)
+//@ property C08 C26
+//@ smt all (declare-ghost decomp_res Slice)
+//@ func Decompress(bs) (r)
+//@   trusted
+//@   pure
+//@   opt ghost:decomp_res r
